@@ -3,7 +3,10 @@
 //! op:  `best|first <i64|u64|f64> <threads> <n> <w…> <m> <ids…>`
 //!      (weights are integers in every weight type; `f64` weights are the same integers
 //!      converted exactly; `threads` = size of the rayon pool the call runs in)
+//!      `twice best|first <case A> <case B>` (case = `<ty> <threads> <n> <w…> <m> <ids…>`):
+//!      two successive calls through the SAME algorithm value and the SAME array buffer
 //! out: `ok <returned count> | <ids afterwards>` | `negative` | `lenmismatch` | `panic …` | `hang`
+//!      (`twice`: the two outputs joined by ` ;; `)
 
 use crate::common::*;
 use coupe::Partition as _;
@@ -29,92 +32,156 @@ fn pool(threads: usize) -> Pool {
         .clone()
 }
 
-const LIMIT: i64 = 1 << 53;
-
-fn format_op(algo: &str, ty: &str, threads: usize, ws: &[i64], ids: &[usize]) -> String {
-    format!("{} {} {} {} {} {} {}", algo, ty, threads, ws.len(), join(ws), ids.len(), join(ids))
-        .split_whitespace()
-        .collect::<Vec<_>>()
-        .join(" ")
-}
-
-struct Op {
-    algo: String,
+/// One input: weight type, pool size, weights (exact integers), part ids.
+#[derive(Clone)]
+struct Case {
     ty: String,
     threads: usize,
-    ws: Vec<i64>,
+    ws: Vec<i128>,
     ids: Vec<usize>,
 }
 
-fn parse_op(op: &str) -> Option<Op> {
-    let mut it = op.split_whitespace();
-    let algo = it.next()?.to_string();
-    if algo != "best" && algo != "first" {
-        return None;
+fn push_case(s: &mut String, c: &Case) {
+    use std::fmt::Write as _;
+    write!(s, " {} {} {}", c.ty, c.threads, c.ws.len()).unwrap();
+    for w in &c.ws {
+        write!(s, " {}", w).unwrap();
     }
+    write!(s, " {}", c.ids.len()).unwrap();
+    for p in &c.ids {
+        write!(s, " {}", p).unwrap();
+    }
+}
+
+fn format_case(algo: &str, c: &Case) -> String {
+    let mut s = String::with_capacity(16 + 8 * (c.ws.len() + c.ids.len()));
+    s.push_str(algo);
+    push_case(&mut s, c);
+    s
+}
+
+fn format_op(algo: &str, ty: &str, threads: usize, ws: &[i64], ids: &[usize]) -> String {
+    format_case(
+        algo,
+        &Case { ty: ty.to_string(), threads, ws: ws.iter().map(|&w| w as i128).collect(), ids: ids.to_vec() },
+    )
+}
+
+fn format_twice(algo: &str, a: &Case, b: &Case) -> String {
+    let mut s = String::from("twice ");
+    s.push_str(algo);
+    push_case(&mut s, a);
+    push_case(&mut s, b);
+    s
+}
+
+/// The exactness contract of the protocol ("sums that do not overflow", integers exact in f64):
+/// i64: the sum of the absolute values fits i64; u64: no negative weight, the total fits u64;
+/// f64: the sum of the absolute values stays below 2^53.
+fn in_contract(c: &Case) -> bool {
+    let abs: i128 = c.ws.iter().map(|w| w.abs()).sum();
+    match c.ty.as_str() {
+        "i64" => abs <= i64::MAX as i128,
+        "u64" => c.ws.iter().all(|&w| w >= 0) && abs <= u64::MAX as i128,
+        _ => abs < (1i128 << 53),
+    }
+}
+
+fn parse_case<'a>(it: &mut impl Iterator<Item = &'a str>) -> Option<Case> {
     let ty = it.next()?.to_string();
     if ty != "i64" && ty != "u64" && ty != "f64" {
         return None;
     }
     let threads: usize = it.next()?.parse().ok()?;
     let n: usize = it.next()?.parse().ok()?;
-    let mut ws = Vec::with_capacity(n.min(1 << 16));
+    let mut ws = Vec::with_capacity(n.min(1 << 20));
     for _ in 0..n {
-        let w: i64 = it.next()?.parse().ok()?;
-        if ty == "u64" && w < 0 {
-            return None;
-        }
-        ws.push(w);
+        ws.push(it.next()?.parse::<i128>().ok()?);
     }
     let m: usize = it.next()?.parse().ok()?;
-    let mut ids = Vec::with_capacity(m.min(1 << 16));
+    let mut ids = Vec::with_capacity(m.min(1 << 20));
     for _ in 0..m {
         ids.push(it.next()?.parse().ok()?);
     }
+    Some(Case { ty, threads, ws, ids })
+}
+
+enum Op {
+    One(String, Case),
+    Twice(String, Case, Case),
+}
+
+fn parse_op(op: &str) -> Option<Op> {
+    let mut it = op.split_whitespace();
+    let first = it.next()?;
+    let is_algo = |a: &str| a == "best" || a == "first";
+    let r = if first == "twice" {
+        let algo = it.next()?.to_string();
+        if !is_algo(&algo) {
+            return None;
+        }
+        let a = parse_case(&mut it)?;
+        let b = parse_case(&mut it)?;
+        Op::Twice(algo, a, b)
+    } else {
+        if !is_algo(first) {
+            return None;
+        }
+        Op::One(first.to_string(), parse_case(&mut it)?)
+    };
     if it.next().is_some() {
         return None;
     }
-    Some(Op { algo, ty, threads, ws, ids })
+    Some(r)
+}
+
+type Res = (Result<usize, coupe::Error>, Vec<usize>);
+
+/// One call of the real implementation on `ids` (in place).
+fn call(best: bool, ty: &str, ws: &[i128], ids: &mut [usize]) -> Result<usize, coupe::Error> {
+    match ty {
+        "i64" => {
+            let w: Vec<i64> = ws.iter().map(|&x| x as i64).collect();
+            if best {
+                coupe::VnBest.partition(ids, w)
+            } else {
+                coupe::VnFirst.partition(ids, &w[..])
+            }
+        }
+        "u64" => {
+            let w: Vec<u64> = ws.iter().map(|&x| x as u64).collect();
+            if best {
+                coupe::VnBest.partition(ids, w)
+            } else {
+                coupe::VnFirst.partition(ids, &w[..])
+            }
+        }
+        _ => {
+            let w: Vec<f64> = ws.iter().map(|&x| x as f64).collect();
+            if best {
+                coupe::VnBest.partition(ids, w)
+            } else {
+                coupe::VnFirst.partition(ids, &w[..])
+            }
+        }
+    }
 }
 
 /// Runs the real implementation; returns the result and the array afterwards.
-fn run_impl(o: &Op, watchdog: bool) -> Caught<(Result<usize, coupe::Error>, Vec<usize>)> {
-    let p = pool(o.threads);
-    let algo_best = o.algo == "best";
-    let ty = o.ty.clone();
-    let ws = o.ws.clone();
-    let mut ids = o.ids.clone();
+fn run_impl(algo: &str, c: &Case, watchdog: bool) -> Caught<Res> {
+    let p = pool(c.threads);
+    let best = algo == "best";
+    let ty = c.ty.clone();
+    let ws = c.ws.clone();
+    let mut ids = c.ids.clone();
+    let threads = c.threads.max(1);
     let work = move || {
-        let r = match ty.as_str() {
-            "i64" => {
-                if algo_best {
-                    coupe::VnBest.partition(&mut ids, ws.iter().cloned())
-                } else {
-                    coupe::VnFirst.partition(&mut ids, &ws[..])
-                }
-            }
-            "u64" => {
-                let w: Vec<u64> = ws.iter().map(|&x| x as u64).collect();
-                if algo_best {
-                    coupe::VnBest.partition(&mut ids, w)
-                } else {
-                    coupe::VnFirst.partition(&mut ids, &w[..])
-                }
-            }
-            _ => {
-                let w: Vec<f64> = ws.iter().map(|&x| x as f64).collect();
-                if algo_best {
-                    coupe::VnBest.partition(&mut ids, w)
-                } else {
-                    coupe::VnFirst.partition(&mut ids, &w[..])
-                }
-            }
-        };
+        let r = call(best, &ty, &ws, &mut ids);
         (r, ids)
     };
     // already on a worker of a pool of the requested size (exhaustive sweep): call directly
     let in_pool = coupe::rayon::current_thread_index().is_some()
-        && coupe::rayon::current_num_threads() == o.threads.max(1);
+        && coupe::rayon::current_num_threads() == threads;
     if in_pool {
         catch(work)
     } else if watchdog {
@@ -124,12 +191,48 @@ fn run_impl(o: &Op, watchdog: bool) -> Caught<(Result<usize, coupe::Error>, Vec<
     }
 }
 
-/// Naive part loads for `k` parts (ids ≥ k are ignored – reported separately).
-fn loads(ws: &[i64], ids: &[usize], k: usize) -> Vec<i128> {
+/// `twice`: the same algorithm VALUE (`&mut` to one instance) and the same `Vec` buffer serve two
+/// successive calls (the buffer is cleared and refilled with the second input, possibly with
+/// more parts and another length); each call in the pool its case asks for.
+fn run_twice(algo: &str, a: &Case, b: &Case) -> Caught<(Res, Res)> {
+    let best = algo == "best";
+    let (a, b) = (a.clone(), b.clone());
+    let (pa, pb) = (pool(a.threads), pool(b.threads));
+    catch_timeout(60, move || {
+        let mut vb = coupe::VnBest;
+        let mut vf = coupe::VnFirst;
+        let mut buf: Vec<usize> = Vec::with_capacity(a.ids.len().max(b.ids.len()));
+        let mut one = |c: &Case, p: &Pool, buf: &mut Vec<usize>| -> Res {
+            buf.clear();
+            buf.extend_from_slice(&c.ids);
+            let r = p.install(|| match c.ty.as_str() {
+                "i64" => {
+                    let w: Vec<i64> = c.ws.iter().map(|&x| x as i64).collect();
+                    if best { vb.partition(buf, w) } else { vf.partition(buf, &w[..]) }
+                }
+                "u64" => {
+                    let w: Vec<u64> = c.ws.iter().map(|&x| x as u64).collect();
+                    if best { vb.partition(buf, w) } else { vf.partition(buf, &w[..]) }
+                }
+                _ => {
+                    let w: Vec<f64> = c.ws.iter().map(|&x| x as f64).collect();
+                    if best { vb.partition(buf, w) } else { vf.partition(buf, &w[..]) }
+                }
+            });
+            (r, buf.clone())
+        };
+        let ra = one(&a, &pa, &mut buf);
+        let rb = one(&b, &pb, &mut buf);
+        (ra, rb)
+    })
+}
+
+/// Naive part loads for `k` parts (ids ≥ k are ignored – reported separately). O(n + k).
+fn loads(ws: &[i128], ids: &[usize], k: usize) -> Vec<i128> {
     let mut l = vec![0i128; k];
     for (w, &p) in ws.iter().zip(ids) {
         if p < k {
-            l[p] += *w as i128;
+            l[p] += *w;
         }
     }
     l
@@ -149,31 +252,20 @@ fn gap(l: &[i128]) -> i128 {
     mx - mn
 }
 
-pub fn run_op(ctx: &mut Ctx, op: &str) {
-    if ctx.hang_limit_reached() {
-        return;
-    }
-    run_op_w(ctx, op, true)
+fn nontrivial(c: &Case) -> bool {
+    let k = 1 + c.ids.iter().copied().max().unwrap_or(0);
+    let total: i128 = c.ws.iter().sum();
+    c.ws.len() == c.ids.len() && k >= 2 && c.ws.len() >= 2 && (c.ws.iter().any(|&w| w < 0) || total > 0)
 }
 
-fn run_op_w(ctx: &mut Ctx, op: &str, watchdog: bool) {
-    let Some(o) = parse_op(op) else {
-        ctx.record(op.to_string(), "bad-op".into(), false);
-        return;
-    };
-    if o.ws.iter().any(|w| w.abs() >= LIMIT) {
-        // outside the exactness contract (f64 conversion would round)
-        ctx.record(op.to_string(), "bad-op".into(), false);
-        return;
-    }
-    let res = run_impl(&o, watchdog);
-    let len_ok = o.ws.len() == o.ids.len();
-    let k = 1 + o.ids.iter().copied().max().unwrap_or(0);
-    let neg = o.ws.iter().position(|&w| w < 0);
-    let total: i128 = o.ws.iter().map(|&w| w as i128).sum();
-    let best = o.algo == "best";
-    let nontrivial = len_ok && k >= 2 && o.ws.len() >= 2 && (neg.is_some() || total > 0);
-    let mut verdict: Option<(&str, String)> = None;
+/// The ORACLE on one call: canonical output line and the verdict (cause signature, description).
+fn judge(ctx: &mut Ctx, algo: &str, c: &Case, res: Caught<Res>) -> (String, Option<(&'static str, String)>) {
+    let len_ok = c.ws.len() == c.ids.len();
+    let k = 1 + c.ids.iter().copied().max().unwrap_or(0);
+    let neg = c.ws.iter().position(|&w| w < 0);
+    let total: i128 = c.ws.iter().sum();
+    let best = algo == "best";
+    let mut verdict: Option<(&'static str, String)> = None;
     let out = match res {
         Caught::Ok((Ok(count), ids)) => {
             if !len_ok {
@@ -183,31 +275,44 @@ fn run_op_w(ctx: &mut Ctx, op: &str, watchdog: bool) {
                     "vnbest-negative-accepted",
                     format!("Ok({}) although weight #{} is negative", count, neg.unwrap()),
                 ));
-            } else if ids.len() != o.ids.len() {
+            } else if ids.len() != c.ids.len() {
                 verdict = Some(("vn-length-changed", "array length changed".into()));
             } else if let Some(bad) = ids.iter().find(|&&p| p >= k) {
                 verdict = Some(("vn-id-out-of-range", format!("part id {} with {} parts", bad, k)));
             } else if neg.is_none() {
                 // the property: gap not larger, total only redistributed
-                let before = loads(&o.ws, &o.ids, k);
-                let after = loads(&o.ws, &ids, k);
+                let before = loads(&c.ws, &c.ids, k);
+                let after = loads(&c.ws, &ids, k);
                 let (gb, ga) = (gap(&before), gap(&after));
                 let sa: i128 = after.iter().sum();
                 if ga > gb {
+                    let show = |l: &[i128]| if l.len() <= 16 { format!("{:?}", l) } else { format!("[{} parts]", l.len()) };
                     verdict = Some((
                         "vn-gap-worse",
-                        format!("gap {} -> {} (loads {:?} -> {:?})", gb, ga, before, after),
+                        format!("gap {} -> {} (loads {} -> {})", gb, ga, show(&before), show(&after)),
                     ));
                 } else if sa != total {
                     verdict = Some(("vn-total-changed", format!("total {} -> {}", total, sa)));
                 }
-                let moved = ids.iter().zip(&o.ids).filter(|(a, b)| a != b).count();
+                let moved = ids.iter().zip(&c.ids).filter(|(a, b)| a != b).count();
                 ctx.count(&format!(
                     "{}_moved_{}",
-                    o.algo,
-                    if moved >= 2 { "2+".to_string() } else { moved.to_string() }
+                    algo,
+                    match moved {
+                        0 | 1 => moved.to_string(),
+                        2..=8192 => "2+".to_string(),
+                        8193..=20000 => "8193+".to_string(),
+                        _ => "20001+".to_string(),
+                    }
                 ));
-                if nontrivial {
+                if best {
+                    if count > 20000 {
+                        ctx.count("best_returned_moves_20001+");
+                    } else if count > 8192 {
+                        ctx.count("best_returned_moves_8193+");
+                    }
+                }
+                if nontrivial(c) {
                     ctx.count(if ga < gb { "gap_decreased" } else { "gap_unchanged" });
                 }
             } else {
@@ -218,7 +323,7 @@ fn run_op_w(ctx: &mut Ctx, op: &str, watchdog: bool) {
         Caught::Ok((Err(coupe::Error::NegativeValues), ids)) => {
             if !best || neg.is_none() {
                 verdict = Some(("vn-spurious-negative", "NegativeValues without a negative weight".into()));
-            } else if ids != o.ids {
+            } else if ids != c.ids {
                 verdict = Some(("vnbest-negative-wrote", "array modified before NegativeValues".into()));
             }
             "negative".to_string()
@@ -226,7 +331,7 @@ fn run_op_w(ctx: &mut Ctx, op: &str, watchdog: bool) {
         Caught::Ok((Err(coupe::Error::InputLenMismatch { .. }), ids)) => {
             if len_ok {
                 verdict = Some(("vn-spurious-lenmismatch", "InputLenMismatch on matching lengths".into()));
-            } else if ids != o.ids {
+            } else if ids != c.ids {
                 verdict = Some(("vn-lenmismatch-wrote", "array modified before InputLenMismatch".into()));
             }
             "lenmismatch".to_string()
@@ -241,19 +346,54 @@ fn run_op_w(ctx: &mut Ctx, op: &str, watchdog: bool) {
             format!("panic {}", m)
         }
         Caught::Hang => {
-            verdict = Some(("hang", "no answer within 20 s".into()));
+            verdict = Some(("hang", "no answer within 60 s".into()));
             "hang".into()
         }
     };
-    ctx.count(&format!("{}_{}", o.algo, out.split(' ').next().unwrap_or("")));
-    ctx.count(&format!("type_{}", o.ty));
-    ctx.count(&format!("threads_{}", o.threads));
+    ctx.count(&format!("{}_{}", algo, out.split(' ').next().unwrap_or("")));
+    ctx.count(&format!("type_{}", c.ty));
+    ctx.count(&format!("threads_{}", c.threads));
     if len_ok {
-        ctx.count(&format!("parts_{}", k.min(9)));
+        ctx.count(&format!("parts_{}", if k <= 8 { k.to_string() } else if k <= 64 { "9..64".into() } else if k <= 257 { "65..257".into() } else { "258+".into() }));
     }
-    let idx = ctx.record(op.to_string(), out, nontrivial);
-    if let Some((sig, what)) = verdict {
-        ctx.fail(idx, sig, what);
+    (out, verdict)
+}
+
+pub fn run_op(ctx: &mut Ctx, op: &str) {
+    if ctx.hang_limit_reached() {
+        return;
+    }
+    run_op_w(ctx, op, true)
+}
+
+fn run_op_w(ctx: &mut Ctx, op: &str, watchdog: bool) {
+    match parse_op(op) {
+        Some(Op::One(algo, c)) if in_contract(&c) => {
+            let res = run_impl(&algo, &c, watchdog);
+            let (out, verdict) = judge(ctx, &algo, &c, res);
+            let idx = ctx.record(op.to_string(), out, nontrivial(&c));
+            if let Some((sig, what)) = verdict {
+                ctx.fail(idx, sig, what);
+            }
+        }
+        Some(Op::Twice(algo, a, b)) if in_contract(&a) && in_contract(&b) => {
+            let (ra, rb) = match run_twice(&algo, &a, &b) {
+                Caught::Ok((ra, rb)) => (Caught::Ok(ra), Caught::Ok(rb)),
+                Caught::Panic(m) => (Caught::Panic(m.clone()), Caught::Panic(m)),
+                Caught::Hang => (Caught::Hang, Caught::Hang),
+            };
+            let (oa, va) = judge(ctx, &algo, &a, ra);
+            let (ob, vb) = judge(ctx, &algo, &b, rb);
+            ctx.count("reuse");
+            let idx = ctx.record(op.to_string(), format!("{} ;; {}", oa, ob), nontrivial(&a) || nontrivial(&b));
+            if let Some((sig, what)) = va.or(vb) {
+                ctx.fail(idx, sig, what);
+            }
+        }
+        _ => {
+            // unparsable, or outside the exactness contract (overflowing sums, inexact f64)
+            ctx.record(op.to_string(), "bad-op".into(), false);
+        }
     }
 }
 
@@ -304,7 +444,280 @@ fn exhaustive_pass(ctx: &mut Ctx, maxlen: usize, pass_threads: usize) {
     }
 }
 
+// ------------------------------------------------------------------ large-n / corner stream
+
+#[derive(Clone, Copy, PartialEq, Debug)]
+enum IdShape {
+    /// uniformly random part of every element
+    Random,
+    /// all of part 0 first, then part 1, …: equal blocks
+    Blocked,
+    /// ascending, block lengths random (a sorted random id vector)
+    Sorted,
+    /// ascending in blocks of 8192 elements (part = index / 8192, as many parts as it takes)
+    Blocks8192,
+}
+
+fn make_ids(rng: &mut Rng, n: usize, parts: usize, shape: IdShape) -> Vec<usize> {
+    match shape {
+        IdShape::Random => {
+            let mut v: Vec<usize> = (0..n).map(|_| rng.usize(parts)).collect();
+            // every part id occurs (the part count is 1 + max id)
+            if n >= parts {
+                v[n - 1] = parts - 1;
+            }
+            v
+        }
+        IdShape::Blocked => (0..n).map(|j| (j * parts / n.max(1)).min(parts - 1)).collect(),
+        IdShape::Sorted => {
+            let mut v: Vec<usize> = (0..n).map(|_| rng.usize(parts)).collect();
+            if n >= parts {
+                v[n - 1] = parts - 1;
+            }
+            v.sort_unstable();
+            v
+        }
+        IdShape::Blocks8192 => (0..n).map(|j| j / 8192).collect(),
+    }
+}
+
+fn make_weights(rng: &mut Rng, n: usize, shape: usize) -> Vec<i128> {
+    (0..n)
+        .map(|_| {
+            (match shape % 4 {
+                0 => rng.range(0, 1000),
+                1 => rng.range(1, 3),
+                2 => rng.range(0, 1 << 30),
+                _ => {
+                    if rng.chance(1, 2) {
+                        0
+                    } else {
+                        rng.range(1, 9)
+                    }
+                }
+            }) as i128
+        })
+        .collect()
+}
+
+fn size_class(n: usize) -> &'static str {
+    match n {
+        0..=4096 => "<=4096",
+        4097..=8192 => "4097..8192",
+        8193..=16384 => "8193..16384",
+        16385..=32768 => "16385..32768",
+        32769..=65536 => "32769..65536",
+        65537..=131072 => "65537..131072",
+        _ => "131073+",
+    }
+}
+
+fn run_large(ctx: &mut Ctx, algo: &str, c: &Case) {
+    ctx.count(&format!("large:{}", size_class(c.ws.len())));
+    run_op(ctx, &format_case(algo, c));
+}
+
+/// Many moves in ONE VnBest call: `heavy_per_part` weights of 10^6 in every part (evenly spread,
+/// never moved) and `units` unit weights all in part 0: the levelling takes about
+/// `units * (parts-1) / parts` moves of one unit each.
+fn many_moves_case(rng: &mut Rng, parts: usize, heavy_per_part: usize, units: usize, ty: &str, threads: usize) -> Case {
+    let mut items: Vec<(i128, usize)> = Vec::new();
+    for p in 0..parts {
+        for _ in 0..heavy_per_part {
+            items.push((1_000_000, p));
+        }
+    }
+    for _ in 0..units {
+        items.push((1, 0));
+    }
+    rng.shuffle(&mut items);
+    Case {
+        ty: ty.to_string(),
+        threads,
+        ws: items.iter().map(|x| x.0).collect(),
+        ids: items.iter().map(|x| x.1).collect(),
+    }
+}
+
+fn large_stream(ctx: &mut Ctx) {
+    let quick = ctx.quick();
+    let mut rng = ctx.rng.clone();
+    let pools = [1usize, 2, 3, 16];
+    let mut rot = 0usize;
+    let mut next = |rot: &mut usize| {
+        *rot += 1;
+        (TYPES[*rot % 3], pools[*rot % 4])
+    };
+
+    // (a)/(b) sizes just above and far above block thresholds x id order x part counts
+    let mut plan: Vec<(usize, usize, IdShape)> = vec![
+        (8193, 257, IdShape::Random),
+        (16384, 8, IdShape::Blocked),
+        (20001, 64, IdShape::Sorted),
+        (70001, 5, IdShape::Random),
+        (70001, 0, IdShape::Blocks8192),
+        (16422, 257, IdShape::Blocked),
+        (20001, 3, IdShape::Blocked),
+    ];
+    if !quick {
+        for &n in &[8193usize, 16384, 16422, 20001, 65548, 70001, 131077, 140003] {
+            for &(parts, shape) in &[
+                (2usize, IdShape::Blocked),
+                (7, IdShape::Sorted),
+                (8, IdShape::Random),
+                (64, IdShape::Blocked),
+                (64, IdShape::Random),
+                (257, IdShape::Sorted),
+                (0, IdShape::Blocks8192),
+            ] {
+                plan.push((n, parts, shape));
+            }
+        }
+    }
+    for (j, &(n, parts, shape)) in plan.iter().enumerate() {
+        let ids = make_ids(&mut rng, n, parts.max(1), shape);
+        let ws = make_weights(&mut rng, n, j);
+        ctx.count(&format!("corner:ids_{:?}", shape).to_lowercase());
+        for algo in ALGOS {
+            let (ty, threads) = next(&mut rot);
+            run_large(ctx, algo, &Case { ty: ty.to_string(), threads, ws: ws.clone(), ids: ids.clone() });
+        }
+    }
+
+    // more than 8192 / more than 20000 moves in one VnBest call
+    let mut mm: Vec<(usize, usize, usize)> = vec![(2, 1000, 18001), (2, 13000, 44001)];
+    if !quick {
+        mm.push((4, 2500, 30001));
+        mm.push((3, 10001, 80000));
+        mm.push((2, 1, 50001));
+    }
+    for &(parts, heavy, units) in &mm {
+        let (ty, threads) = next(&mut rot);
+        let c = many_moves_case(&mut rng, parts, heavy, units, ty, threads);
+        ctx.count("corner:many_moves");
+        run_large(ctx, "best", &c);
+        if !quick {
+            run_large(ctx, "first", &c);
+        }
+    }
+
+    // VnFirst: a FULL cycle of the scan (no target accepted for 1..n-1), then the zero weight at
+    // index 0 is accepted as the very last element; and the same without any acceptable move
+    for &n in if quick { &[70001usize][..] } else { &[20001usize, 70001, 140003][..] } {
+        let mut ws = vec![1i128; n];
+        ws[0] = 0;
+        let ids: Vec<usize> = (0..n).map(|j| if j == 0 { 0 } else { j % 2 }).collect();
+        let (ty, threads) = next(&mut rot);
+        ctx.count("corner:first_full_cycle");
+        run_large(ctx, "first", &Case { ty: ty.to_string(), threads, ws, ids });
+        let ws = vec![3i128; n + 1];
+        let ids: Vec<usize> = (0..n + 1).map(|j| j * 2 / (n + 1)).collect();
+        let (ty, threads) = next(&mut rot);
+        run_large(ctx, "first", &Case { ty: ty.to_string(), threads, ws, ids });
+    }
+
+    // VnFirst: ~n/2 elements of the heaviest part are tried and rejected (too heavy to move)
+    // before the light element at index 0 – visited last – is accepted
+    for &m in if quick { &[10000usize][..] } else { &[4100usize, 10000, 35000][..] } {
+        let mut items: Vec<(i128, usize)> = Vec::new();
+        for _ in 0..m {
+            items.push((1000, 0));
+        }
+        for _ in 0..m - 1 {
+            items.push((1000, 1));
+        }
+        items.push((997, 1));
+        rng.shuffle(&mut items);
+        items.insert(0, (2, 0));
+        let (ty, threads) = next(&mut rot);
+        ctx.count("corner:first_late_accept");
+        run_large(ctx, "first", &Case {
+            ty: ty.to_string(),
+            threads,
+            ws: items.iter().map(|x| x.0).collect(),
+            ids: items.iter().map(|x| x.1).collect(),
+        });
+    }
+
+    // part-count corners
+    for &parts in &[63usize, 64, 65, 128, 255, 256, 257] {
+        let n = 3 * parts + 1;
+        for shape in [IdShape::Random, IdShape::Blocked] {
+            let ids = make_ids(&mut rng, n, parts, shape);
+            let ws = make_weights(&mut rng, n, parts);
+            for algo in ALGOS {
+                let (ty, threads) = next(&mut rot);
+                ctx.count(&format!("corner:parts_{}", parts));
+                run_op(ctx, &format_case(algo, &Case { ty: ty.to_string(), threads, ws: ws.clone(), ids: ids.clone() }));
+            }
+        }
+    }
+    // thousands of parts (VnFirst costs (elements of the heaviest part) x parts^2: random weights only)
+    for &(n, parts) in if quick { &[(20001usize, 5000usize), (8193, 2000)][..] } else { &[(20001usize, 5000usize), (8193, 2000), (30011, 9001), (16422, 4097)][..] } {
+        let ids = make_ids(&mut rng, n, parts, IdShape::Random);
+        let ws = make_weights(&mut rng, n, 0);
+        let (ty, threads) = next(&mut rot);
+        ctx.count("corner:thousands_of_parts");
+        run_large(ctx, "best", &Case { ty: ty.to_string(), threads, ws: ws.clone(), ids: ids.clone() });
+        if parts <= 5000 {
+            let (ty, threads) = next(&mut rot);
+            run_large(ctx, "first", &Case { ty: ty.to_string(), threads, ws, ids });
+        }
+    }
+    // exactly two / three elements with far-apart part ids
+    for ids in [vec![0usize, 63], vec![64, 0], vec![256, 0, 255], vec![0, 257, 257], vec![1, 0], vec![4097, 0, 1], vec![65536, 0, 1]] {
+        for algo in ALGOS {
+            if algo == "first" && ids[0] > 5000 {
+                continue; // vn_first costs parts^2 per element of the heaviest part
+            }
+            let (ty, threads) = next(&mut rot);
+            let ws: Vec<i128> = (0..ids.len()).map(|_| rng.range(1, 9) as i128).collect();
+            ctx.count("corner:two_three_elements");
+            run_op(ctx, &format_case(algo, &Case { ty: ty.to_string(), threads, ws, ids: ids.clone() }));
+        }
+    }
+    // type corners: one weight above half of the type's headroom, total still fits
+    for algo in ALGOS {
+        for (ty, big) in [("i64", (1i128 << 62) + 12345), ("u64", (1i128 << 63) + 98765), ("f64", (1i128 << 52) + 3)] {
+            for parts in [2usize, 3, 5] {
+                let n = 40;
+                let mut ws: Vec<i128> = (0..n).map(|_| rng.range(0, 1 << 20) as i128).collect();
+                ws[rng.usize(n)] = big;
+                if ty != "f64" {
+                    ws[rng.usize(n)] = big / 3;
+                }
+                let ids = make_ids(&mut rng, n, parts, IdShape::Random);
+                ctx.count(&format!("corner:headroom_{}", ty));
+                run_op(ctx, &format_case(algo, &Case { ty: ty.to_string(), threads: pools[parts % 4], ws, ids }));
+            }
+        }
+    }
+    // reuse: same algorithm value, same buffer, second input longer and with more parts
+    for algo in ALGOS {
+        for &(n1, p1, n2, p2) in &[(9usize, 3usize, 12usize, 5usize), (8193, 3, 9001, 65), (300, 257, 40, 2)] {
+            let mk = |rng: &mut Rng, n: usize, p: usize, ty: &str, threads: usize, shape: IdShape| Case {
+                ty: ty.to_string(),
+                threads,
+                ws: make_weights(rng, n, n),
+                ids: make_ids(rng, n, p, shape),
+            };
+            let (ty, threads) = next(&mut rot);
+            let a = mk(&mut rng, n1, p1, ty, threads, IdShape::Random);
+            let (ty, threads) = next(&mut rot);
+            let b = mk(&mut rng, n2, p2, ty, threads, IdShape::Sorted);
+            run_op(ctx, &format_twice(algo, &a, &b));
+        }
+    }
+    ctx.rng = rng;
+    ctx.notes.push(
+        "large-n / corner stream: sizes 8193..70001 (thorough ..140003) with random, blocked, sorted and blocks-of-8192 id orders, 2-8/64/257 and thousands of parts, pools 1/2/3/16; VnBest calls with > 8192 and > 20000 moves; a full VnFirst cycle; part counts 63..257; 2-3 elements with far-apart ids; one weight above half of the type's headroom; reuse of the algorithm value and of the array buffer; all compared exactly with the model (array twin of the proven list model, cross-checked against it on every case up to 64 elements)".to_string(),
+    );
+}
+
 pub fn generate(ctx: &mut Ctx) {
+    // ---- large-n / corner / reuse stream first (its cases matter most if a watchdog limit stops the run)
+    large_stream(ctx);
+
     // ---- exhaustive sub-space: weights 0..=3, ids 0..=2, every length up to maxlen,
     //      both algorithms on every case; weight type and pool size rotate with the case number
     let maxlen = ctx.budget(5, 6);
@@ -315,7 +728,7 @@ pub fn generate(ctx: &mut Ctx) {
         pl.install(move || exhaustive_pass(ctx_ref, maxlen, pass_threads));
     }
     ctx.notes.push(format!(
-        "exhaustive sub-space: every weight vector over 0..=3 x every id vector over 0..=2 of length 0..={}, both algorithms (weight type and pool size rotate; all three types for length <= 3)",
+        "exhaustive sub-space: every weight vector over 0..=3 x every id vector over 0..=2 of length 0..={}, both algorithms (weight type and pool size rotate; all three types in both pool sizes for length <= 3)",
         maxlen
     ));
 
